@@ -56,7 +56,7 @@ def run(ck):
         ok = where in (T + "handleIncoming", "lambda in Pistache::Http::TransportImpl::checkIdlePeers")
         ck.ob("C08-R1", "caller-of:handlePeerDisconnection<-%s" % where.replace("Pistache::", ""), ok, e.loc, f, "called from %s" % where)
     nclose = 0
-    for f in prog.funcs.values():
+    for f in prog.library_funcs():
         if f.file.startswith(facts.VERIF) or "/client/" in f.file:
             continue
         fdvars = {d["var"] for d in f.events("decl") if strip_tmpl(d.get("icall") or "") == PEER_FD}
